@@ -20,6 +20,13 @@
     - [lz.rt]  (instant -> wall -> instants): the wall reading is t + zone_off t and the answer is
       (t), or (a, b) with a < b and t one of them;
     - [lz.env]: [lz.at] / [lz.loc] through the public route (direction argument 0 / 1);
+    - [lz.conv] (public route): the conversions into DateTime<Local> (From<DateTime<Utc>>,
+      From<DateTime<FixedOffset>>, FromStr, From<SystemTime>) and out of it (into DateTime<Utc>,
+      DateTime<FixedOffset>) keep the instant; the offset of a Local result is [zone_off] at that
+      instant, of the Utc result 0, of the FixedOffset result the Local value's offset;
+    - [lz.asg] (public route): a DateTime<Local> at instant t, then += / -= a whole number of seconds d
+      (as TimeDelta and as core::time::Duration): the instant moves exactly and the offset of the result
+      is [zone_off] at the NEW instant (the zone is resolved again, the old offset is not kept);
     - [lz.uat]: [lz.at] for the instants in whose year the rule is NOT regular ([spacing_rule_self]);
     - [lz.uloc] / [lz.usel] / [lz.urt]: the same statements, for the readings at which
       the zone does NOT satisfy the spacing condition [spacing_ok] (transitions closer together
@@ -217,6 +224,51 @@ Definition j_rt (z : szone) (t : Z) (out : val) : ev :=
       | _ => EBad (VTup [VInt (t + o); VTup [VInt t]])
       end
   end.
+(* the conversions: six (offset, timestamp) pairs - Local from Utc, Local from FixedOffset, Utc from Local,
+   FixedOffset from Local, Local from text, Local from SystemTime *)
+Definition j_conv (z : szone) (t : Z) (out : val) : ev :=
+  if negb (in_dom z t) then ESkip else
+  match zone_off z t with
+  | None => ESkip
+  | Some o =>
+      if negb (fo_ok o) then ESkip else
+      let p := VTup [VInt o; VInt t] in
+      let e := VTup [p; p; VTup [VInt 0; VInt t]; p; p; p] in
+      if val_eqb out e then EOk else EBad e
+  end.
+(* DateTime<Local> += / -= : four results (+= d, -= d as TimeDelta; += |d|, -= |d| as core::time::Duration), each
+   (offset, timestamp): the instant moved exactly, the offset the zone's offset at the NEW instant.  A claim is
+   made on a result whose new instant is in the domain (and in a regular rule year); a PANIC there is rejected *)
+Definition regular_at (z : szone) (t : Z) : bool :=
+  match z_rule z with Some (inr a) => spacing_rule_self a (utc_year t) | _ => true end.
+Definition asg_exp (z : szone) (t' : Z) : option val :=
+  if negb (in_dom z t' && regular_at z t') then None else
+  match zone_off z t' with
+  | Some o' => if fo_ok o' then Some (VTup [VInt o'; VInt t']) else None
+  | None => None
+  end.
+Definition asg_chk (x : option val) (v : val) : bool := match x with None => true | Some w => val_eqb v w end.
+Definition asg_show (x : option val) : val := match x with None => VNone | Some w => VSome w end.
+Definition ASG_MAX := 10000000000000.
+Definition j_asg (z : szone) (d : Z) (t : Z) (out : val) : ev :=
+  if negb (in_dom z t && regular_at z t) then ESkip else
+  match zone_off z t with
+  | None => ESkip
+  | Some o =>
+      if negb (fo_ok o) then ESkip else
+      let ea := asg_exp z (t + d) in let eb := asg_exp z (t - d) in
+      let ec := asg_exp z (t + Z.abs d) in let ee := asg_exp z (t - Z.abs d) in
+      let want := VTup [asg_show ea; asg_show eb; asg_show ec; asg_show ee] in
+      match ea, eb, ec, ee with
+      | None, None, None, None => ESkip
+      | _, _, _, _ =>
+          match out with
+          | VTup [a; b; c; e] =>
+              if asg_chk ea a && asg_chk eb b && asg_chk ec c && asg_chk ee e then EOk else EBad want
+          | _ => EBad want
+          end
+      end
+  end.
 (* the unspaced variants: only where the zone is not well spaced at this reading *)
 Definition unspaced (z : szone) (j : szone -> Z -> val -> ev) (wall_of : Z -> option Z) (x : Z) (out : val) : ev :=
   match wall_of x with
@@ -278,6 +330,11 @@ Definition judge (op : bytes) (args : list val) (out : val) : verdict :=
           else if op_is op "lz.uloc" then batch (unspaced z (j_loc offs) wall_self) xs out
           else if op_is op "lz.usel" then batch (unspaced z (j_sel offs) wall_self) xs out
           else if op_is op "lz.urt" then batch (unspaced z j_rt wall_of_t) xs out
+          else if op_is op "lz.conv" then
+            match z_rule z with
+            | Some (inr a) => batch (fun t o => if spacing_rule_self a (utc_year t) then j_conv z t o else ESkip) xs out
+            | _ => batch (j_conv z) xs out
+            end
           else JSkip
       end
   | [src; zm; VInt dir; xs] =>
@@ -288,6 +345,8 @@ Definition judge (op : bytes) (args : list val) (out : val) : verdict :=
             if dir =? 0 then batch (j_at z) xs out
             else if dir =? 1 then batch (j_loc (zone_offsets z) z) xs out
             else JSkip
+          else if op_is op "lz.asg" then
+            if (- ASG_MAX <=? dir) && (dir <=? ASG_MAX) then batch (j_asg z dir) xs out else JSkip
           else JSkip
       end
   | _ => JSkip
